@@ -40,7 +40,8 @@ def theorem_at(lines, lineno):
     return "?"
 
 
-PROOF_FILES = ["TranslatedEq", "TranslatedUnits", "TranslatedSafe", "TranslatedUnitsSafe"]   # in import order
+PROOF_FILES = ["TranslatedEq", "TranslatedUnits", "TranslatedUnitsTs", "TranslatedUnitsIso", "TranslatedSafe", "TranslatedUnitsSafe",
+               "TranslatedUnitsTsSafe", "TranslatedUnitsIsoSafe"]   # in import order
 
 
 def build():
